@@ -45,6 +45,17 @@ func c01Check(c *oracleCtx, src string, cfgs []string, generated bool) {
 			c.violation(cls, fmt.Sprintf("goja runs the program (%s), xjs reports %s", sb.String(), oaErrText(errs)), base)
 			return
 		}
+		// a plugin in the parse path that handles every expression through the exported two-step API (parse the operand,
+		// then the rest) is a different route to the same program
+		if re := runParse(parseSetup{exprI: []string{"r0"}}, src); len(re.errs) > 0 || oaCompile("c", re.prog) != oaCompile("c", prog) {
+			in2 := map[string]any{"src": hexOf(src), "text": src, "generated": generated, "interceptor": "re-entrant"}
+			what := "with a re-entrant expression interceptor installed the program is rejected: " + oaErrText(re.errs)
+			if len(re.errs) == 0 {
+				what = "with a re-entrant expression interceptor installed the compiled program differs: " + firstDiff(oaCompile("c", prog), oaCompile("c", re.prog))
+			}
+			c.violation("interceptor-changes-program", what, in2)
+			return
+		}
 		seen := map[string]bool{}
 		for _, cfg := range cfgs {
 			input := map[string]any{"src": hexOf(src), "text": src, "cfg": cfg, "generated": generated}
@@ -122,6 +133,19 @@ func oracleC01(c *oracleCtx) {
 		"console.log(`C:\\\\\\`dir\\``.length)\nconsole.log(`a\\\\\\`b`)\nconsole.log(`\\\\`.length, `\\``.length, `\\\\\\``.length)\n",
 		"let s = `a\\\\\\`.length;//`\nconsole.log(s)\n",
 		"console.log(`\\n\\t\\x41\\u0041\\u{41}`, `line\\\ncontinued`)\n",
+	} {
+		c01Check(c, src, c01Cfgs(c, src, []string{"c", "p:2020:1", "p:09:0"}), false)
+		c.count(src)
+	}
+	// directed sources: an empty statement as the body of a loop or a branch (JavaScript has it; if xjs accepts it, it
+	// must keep it)
+	for _, src := range []string{
+		"let i = 0\nwhile (i++ < 3);\nconsole.log(i)\n",
+		"if (false); else console.log(1)\nconsole.log(2)\n",
+		"let k = 0\nfor (let j = 0; j < 2; j++);\nconsole.log(k)\n",
+		"if (true);\nconsole.log(3)\n",
+		";;console.log(4);;\n",
+		"function f() { ; return 5 }\nconsole.log(f())\n",
 	} {
 		c01Check(c, src, c01Cfgs(c, src, []string{"c", "p:2020:1", "p:09:0"}), false)
 		c.count(src)
